@@ -484,3 +484,53 @@ Proof.
   - destruct (negb (mpend s m)); [discriminate|]. inj_some. cbn.
     destruct (match o with ErrNotApplied => false | _ => negb (is_some (cid (e s))) end); cbn; auto.
 Qed.
+
+(* ---------- streaming handlers: the refusal is per message, not per stream ---------- *)
+Lemma stream_per_message_pf name running c : forall hs k h b,
+  nth_error hs k = Some h -> hid_of h <> c ->
+  nth_error (stream_run name running c hs) k = Some b -> b = BMismatch \/ b = BNotBoot.
+Proof.
+  induction hs as [|h0 r IH]; intros k h b Hk Hne Hb; [destruct k; discriminate|].
+  cbn [stream_run] in Hb.
+  destruct (String.eqb name "RegionHeartbeat" && negb running)%string.
+  - destruct k as [|k]; cbn in Hb; [inversion Hb; auto | destruct k; discriminate].
+  - destruct (Z.eqb_spec (hid_of h0) c) as [Heq|Hneq]; cbn [negb] in Hb.
+    + destruct k as [|k]; cbn in Hk, Hb.
+      * inversion Hk; subst. contradiction.
+      * eapply IH; eauto.
+    + destruct k as [|k]; cbn in Hb; [inversion Hb; auto | destruct k; discriminate].
+Qed.
+
+(* a refused message ends the stream: nothing after it is processed *)
+Lemma stream_stops_at_refusal_pf name running c : forall hs k,
+  nth_error (stream_run name running c hs) k = Some BMismatch -> List.length (stream_run name running c hs) = S k.
+Proof.
+  induction hs as [|h0 r IH]; intros k Hb; [destruct k; discriminate|].
+  cbn [stream_run] in *.
+  destruct (String.eqb name "RegionHeartbeat" && negb running)%string.
+  - destruct k as [|k]; cbn in Hb; [discriminate | destruct k; discriminate].
+  - destruct (negb (hid_of h0 =? c)).
+    + destruct k as [|k]; cbn in Hb; [reflexivity | destruct k; discriminate].
+    + destruct k as [|k]; cbn in Hb; [discriminate|]. cbn [List.length]. f_equal.
+      apply IH; exact Hb.
+Qed.
+
+(* where the check sits in the code: directly in the body of the receive loop (not under another condition, not before
+   the loop), and before the call that serves the message *)
+Local Open Scope string_scope.
+Definition is_check (c : string) (x : ev) : bool := match x with IfE c' [Ret] [] => String.eqb c c' | _ => false end.
+Definition is_call (f : string) (x : ev) : bool := match x with Call g => String.eqb f g | _ => false end.
+Fixpoint precedes (p q : ev -> bool) (l : list ev) : bool :=
+  match l with
+  | [] => false
+  | x :: r => if q x then false else if p x then existsb q r else precedes p q r
+  end.
+(* some receive loop of the skeleton has p directly in its body, before q *)
+Definition in_loop_before (p q : ev -> bool) (sk : list ev) : bool :=
+  existsb (fun x => match x with ForE body => precedes p q body | _ => false end) sk.
+
+Lemma stream_checks_every_message_pf :
+  in_loop_before (is_check "v5.GetHeader().GetClusterId() != v0.clusterID") (is_call "HandleTSORequest") skel_Tso = true
+  /\ in_loop_before (is_call "validateRequest") (is_call "HandleRegionHeartbeat") skel_RegionHeartbeat = true
+  /\ in_loop_before (is_check "v4 != v0.server.ClusterID()") (is_call "syncHistoryRegion") skel_SyncerSync = true.
+Proof. vm_compute. repeat split; reflexivity. Qed.
